@@ -120,6 +120,11 @@ def body_interleave(c0, c1, tA, bodyA, opB, tB, bodyB, at):
             related = nA == nB or (uA is not None and uA == uB)
             if ctx.kf("C05-tree-check-then-act") and related and idx > 1 and (lock_at is None or idx <= lock_at):
                 return (weak_ok(), "known")
+            # the same root cause seen from the other side: B's conditional delete evaluates ITS etag on the working
+            # file while A, inside its critical section, is rewriting that file (between truncate and the last append)
+            if (ctx.kf("C05-tree-torn-read") and nA == nB and opB == 3 and opA in (0, 1) and res.get("B") == "etag"
+                    and trace[idx - 1] == "append"):
+                return (weak_ok(), "known")
         else:
             # bare store: the head read inside do_commit is the last ref-read before the compare-and-set
             cas = [i for i, k in enumerate(trace) if k == "ref-cas"]
@@ -230,6 +235,9 @@ def body_interleave3(c0, c1, tA, bodyA, opB, tB, bodyB, opC, tC, bodyC, at1, at2
                 related = related or nA == nx or (uA is not None and uA == ux)
             if ctx.kf("C05-tree-check-then-act") and related and idx > 1 and (lock_at is None or idx <= lock_at):
                 return (weak_ok3(), "known")
+            if ctx.kf("C05-tree-torn-read") and opA in (0, 1) and 0 < idx <= len(trace) and trace[idx - 1] == "append" and any(
+                    ops[x][0] == 3 and ops[x][1] == nA and res.get(x) == "etag" for x in ("B", "C")):
+                return (weak_ok3(), "known")
         else:
             cas = [i for i, k in enumerate(trace) if k == "ref-cas"]
             reads = [i for i, k in enumerate(trace) if k == "ref-read" and (not cas or i < cas[0])]
@@ -265,6 +273,47 @@ def h_interleave3(c0: bytes, c1: bytes, tA: int, bodyA: bytes, opB: int, tB: int
     post: _
     """
     return run(body_interleave3, c0, c1, tA, bodyA, opB, tB, bodyB, opC, tC, bodyC, at1, at2)
+
+
+# ------------------------------------------------------------------ every intrusion point, exhaustive over a menu
+IM_BODIES = [b"xa", b"xq", b"yb"]   # the member's own content, a fresh UID, a new content carrying b.ics' UID
+
+
+def body_interleave_menu(oa, ta, ba, ob):
+    """Operation A (put / put-if / delete / delete-if on a.ics, b.ics or the fresh n.ics, three bodies) chosen by the
+    solver together with the kind of B; B's target and body and EVERY intrusion point 1..kmax are looped over inside
+    (the body of `interleave`, run untraced): exhaustive over the menu, so a defect that shows only at one particular
+    access of one particular pair of operations cannot be missed by an unlucky search order."""
+    from xv.core import picks, untraced
+    oa, ta, ba, ob = picks((oa, ta, ba, ob), (4, 3, len(IM_BODIES), 4))
+    with untraced():
+        kind, same = ctx.PART
+        saved = ctx.PART
+        ctx.PART = (kind, same, oa)
+        try:
+            worst = "none"
+            for tb in range(3):
+                for bb in (range(len(IM_BODIES)) if ob in (0, 1) else range(1)):
+                    for at in range(1, ctx.b.kmax + 1):
+                        ok, cls = body_interleave(b"xa", b"xb", ta, IM_BODIES[ba], ob, tb, IM_BODIES[bb], at)
+                        if not ok:
+                            ctx.LAST_EXC = "A=%s %s %r, B=%s %s %r, at=%d: %s" % (
+                                OPK[oa], NAMES[ta], IM_BODIES[ba], OPK[ob], NAMES[tb], IM_BODIES[bb], at, cls)
+                            return (False, cls)
+                        if cls.startswith("after"):
+                            break  # every later `at` is the same schedule
+                        worst = cls
+            return (True, "menu:" + OPK[oa])
+        finally:
+            ctx.PART = saved
+
+
+def h_interleave_menu(oa: int, ta: int, ba: int, ob: int) -> bool:
+    """
+    pre: 0 <= oa < 4 and 0 <= ta < 3 and 0 <= ba < len(IM_BODIES) and 0 <= ob < 4
+    post: _
+    """
+    return run(body_interleave_menu, oa, ta, ba, ob)
 
 
 def real_interleave(args, part):
@@ -311,6 +360,13 @@ HARNESSES = [
             real_replay=real_interleave,
             describe="operation A with an atomic intrusion of operation B at every shared-state access; part = "
                      "(back end, same store object?, kind of A)",
+            encodes=_store.STEP_ENCODES),
+    Harness("interleave_menu", h_interleave_menu, body_interleave_menu, classes=[("menu:put", ("tree", False)), ("menu:delete", ("bare", True))],
+            parts={"quick": [(k, sm) for k in ("tree", "bare") for sm in (True, False)]}, bounds=_B,
+            budget={"quick": 120, "thorough": 400}, per_path_timeout={"quick": 60, "thorough": 60}, twin_budget={"quick": 60, "thorough": 90},
+            describe="the obligations of `interleave` for every pair of operations over a menu (4 kinds x 3 names x 3 bodies "
+                     "each) at EVERY intrusion point (looped inside, untraced): exhaustive over the menu; part = (back end, "
+                     "same store object?)",
             encodes=_store.STEP_ENCODES),
     Harness("interleave3", h_interleave3, body_interleave3, classes=[("three:3-ran", ("tree", False, 0))],
             parts={"quick": [("tree", False, 0)], "thorough": _PARTS}, bounds=_B, budget={"quick": 60, "thorough": 600},
